@@ -666,6 +666,10 @@ def run(tier, seed):
         chk.count({'STR': 'z3-strings'}.get(backend, backend), status, 0.0, name)
         if status == 'failed':
             hit = [b for b in nat.get('bad', []) if (b[0].startswith('#include') == name.startswith('STR:include'))]
+            if name.startswith('SHAPE:') and not hit:
+                chk.undecide('%s -- the source no longer has the shape this obligation was written for and the bounded run found no failing '
+                             'input: the contract must be re-derived (%s)' % (name, str(detail)[:200]))
+                continue
             chk.violation(name, {'solver': 'counter-model / witness of the obligation; the bounded native run (canary files outside every '
                                            'root, every open()/isfile() recorded) supplies the concrete failing input',
                                  'witness': detail, 'native_witness': hit[:3]}, bool(hit))
